@@ -905,6 +905,11 @@ class Process(StateMachine, persistence.Savable, metaclass=ProcessStateMachineMe
             msg_txt = msg[MESSAGE_TEXT_KEY] or ''
 
         self.set_status(msg_txt)
+
+        # The future may already be done if the kill was triggered by the future being cancelled, in which case it
+        # is replaced (as in ``on_except``) or else ``asyncio`` will raise an exception.
+        if self.future().done():
+            self._future = persistence.SavableFuture(loop=self._loop)
         self.future().set_exception(exceptions.KilledError(msg_txt))
 
     @super_check
